@@ -4,6 +4,7 @@ package checks
 import (
 	_ "verifmc/checks/c06"
 	_ "verifmc/checks/c07"
+	_ "verifmc/checks/c08"
 	_ "verifmc/checks/c09"
 	_ "verifmc/checks/c10"
 	_ "verifmc/checks/c12"
